@@ -9,6 +9,7 @@ import (
 	"math"
 	"math/big"
 	"reflect"
+	"regexp"
 	"strconv"
 	"strings"
 	"testing"
@@ -65,6 +66,11 @@ func closeEnough(a, b *big.Rat) bool {
 	return false
 }
 
+var (
+	paddedDecimalRe   = regexp.MustCompile(`^[+-]?[0-9]+$`)
+	plainConversionRe = regexp.MustCompile(`^\.(integer|bigint|double|number|decimal)\(\)$`)
+)
+
 func checkMethodFacts(c MethodCase) (*Violation, methodFacts) {
 	var f methodFacts
 	val, ok := c.goValue()
@@ -87,6 +93,23 @@ func checkMethodFacts(c MethodCase) (*Violation, methodFacts) {
 	vars := map[string]any{"v": val}
 	mr := RunModel(PathFromAST(p.AST), nil, Opts{TZ: true}, vars, false)
 	if mr.Err != nil && mr.Err.dontCare {
+		// Whether a conversion accepts a non-canonical spelling is open - but not what it means: a string of
+		// decimal digits, zero-padded or signed ("010", "+7", "-0012"), is that decimal number in SQL and in
+		// every other reading but C's octal. If the method accepts it, it returns that number.
+		if s, isStr := val.(string); isStr && paddedDecimalRe.MatchString(s) && plainConversionRe.MatchString(c.Chain) {
+			got := RunQuery(context.Background(), p, nil, exec.WithVars(exec.Vars(vars)), exec.WithTZ())
+			if got.Panic != "" {
+				return violf("%s on %s panicked: %s", text, c.Value.Text, got.Panic), f
+			}
+			if got.Class == EOK && len(got.Items) == 1 {
+				want, _ := new(big.Rat).SetString(strings.TrimPrefix(s, "+"))
+				if gr, isNum := numRat(got.Items[0]); !isNum || gr.Cmp(want) != 0 {
+					return violf("%s with v=%q: the string is the decimal number %s; the method may reject the spelling, but it returned %s", text, s, want.RatString(), Render(got.Items[0], false)), f
+				}
+			}
+			f.class = "padded_decimal_string"
+			return nil, f
+		}
 		f.excluded = true
 		return nil, f
 	}
@@ -197,7 +220,7 @@ func methodGrid() []MethodCase {
 		}
 	}
 	// other input types
-	for _, j := range []string{`null`, `true`, `false`, `"abc"`, `""`, `"true"`, `"T"`, `"yes"`, `"No"`, `"on"`, `"OFF"`, `"1"`, `"0"`, `"2"`, `"tru"`, `"ye\u017f"`, `"fal\u017fe"`, `"YE\u017f"`, `"\u017f"`, `"o\uff2e"`, `"TRUE"`, `"yEs"`, `"oFf"`, `"N"`, `" 1"`, `"1 "`, `"0x10"`, `"1_0"`, `"1e5"`, `"1.0"`, `"+1"`, `"-0"`, `"Infinity"`, `"NaN"`, `"nan"`, `"inf"`, `[]`, `[1,2.5,"3"]`, `[[1]]`, `[null]`, `{}`, `{"a":1}`, `{"a":1,"b":{"c":2}}`, `[{"a":1},{"b":2}]`, `"2015-08-01"`, `"12:34:56"`} {
+	for _, j := range []string{`null`, `true`, `false`, `"abc"`, `""`, `"true"`, `"T"`, `"yes"`, `"No"`, `"on"`, `"OFF"`, `"1"`, `"0"`, `"2"`, `"010"`, `"0017"`, `"-0012"`, `"+7"`, `"0000002147483647"`, `"00"`, `"08"`, `"-09"`, `"tru"`, `"ye\u017f"`, `"fal\u017fe"`, `"YE\u017f"`, `"\u017f"`, `"o\uff2e"`, `"TRUE"`, `"yEs"`, `"oFf"`, `"N"`, `" 1"`, `"1 "`, `"0x10"`, `"1_0"`, `"1e5"`, `"1.0"`, `"+1"`, `"-0"`, `"Infinity"`, `"NaN"`, `"nan"`, `"inf"`, `[]`, `[1,2.5,"3"]`, `[[1]]`, `[null]`, `{}`, `{"a":1}`, `{"a":1,"b":{"c":2}}`, `[{"a":1},{"b":2}]`, `"2015-08-01"`, `"12:34:56"`} {
 		for _, m := range simple {
 			for _, strict := range []bool{false, true} {
 				for _, repr := range []string{"json", "jsonnum"} {
